@@ -67,6 +67,7 @@ type obligCtx struct {
 	retMem  map[*ssa.Function]map[int][]types.Type
 	grammar *Grammar
 	prov    *ProviderTable
+	span    *spanInv
 }
 
 func newObligCtx(c *Ctx) *obligCtx {
@@ -605,9 +606,16 @@ func (oc *obligCtx) sliceOb(in ssa.Instruction, x *ssa.Slice, add addFn) {
 	}
 	if len(fails) == 0 {
 		add("slice", in, desc, true, "0 ≤ low ≤ high ≤ len established")
-	} else {
-		add("slice", in, desc, false, "slice expression "+desc+" with no dominating proof of "+strings.Join(fails, ", "))
+		return
 	}
+	if ok, why := oc.spanDischarge(in, x); ok {
+		add("slice", in, desc, true, why)
+		return
+	} else if why != "" {
+		add("slice", in, desc, false, "slice expression "+desc+": the lexer's span invariant would cover it, but its frame condition fails: "+why)
+		return
+	}
+	add("slice", in, desc, false, "slice expression "+desc+" with no dominating proof of "+strings.Join(fails, ", "))
 }
 
 func optExpr(v ssa.Value) string {
